@@ -20,7 +20,7 @@ import subprocess
 import sys
 from datetime import date, datetime, timedelta
 
-from vf.core import Ctx, cfg_text, main_wrapper, Machinery, VERIF
+from vf.core import Ctx, cfg_text, main_wrapper, Machinery, VERIF, REPO
 from vf.realcode import unfold_lines
 from icalendar import Calendar, Event, Alarm, Component
 from icalendar.parser import Parameters
@@ -254,6 +254,74 @@ def run(ctx: Ctx):
                      [mixed[0][i] for i in bad[:3]])
     if all(x.startswith("EXC:") for x in mixed[0][:24]):
         raise Machinery("mixed programs: every mixed list was refused (vacuous)")
+
+    # ------------------------------------------------------------- purity and determinism on PARSED and hand-assembled trees
+    # (values that did not pass through add(): parsed without a VALUE parameter, stored by item assignment, one value
+    #  object under two properties, one component object attached twice)
+    import copy as _copy
+    import glob as _glob
+    from icalendar import Calendar as _Cal, Component as _Comp
+    from icalendar.prop import vDDDTypes as _vD
+    from zoneinfo import ZoneInfo as _ZI
+    texts = ["BEGIN:VEVENT\r\nDTSTART:20240501T100000Z\r\nBEGIN:VALARM\r\nTRIGGER:20240501T120000Z\r\nACKNOWLEDGED:20240501T120000Z\r\nEND:VALARM\r\nEND:VEVENT\r\n",
+             "BEGIN:VTODO\r\nDUE;VALUE=DATE:20240501\r\nRDATE:20240501,20240502T100000\r\nX-D:20240501T100000Z\r\nDURATION:PT1H\r\nEND:VTODO\r\n",
+             "BEGIN:VCALENDAR\r\nBEGIN:X-A\r\nB:2\r\nA:1\r\nBEGIN:VEVENT\r\nSUMMARY:s\r\nCATEGORIES:b,a\r\nATTENDEE;ROLE=CHAIR;CN=x:mailto:a\r\nEND:VEVENT\r\nEND:X-A\r\nEND:VCALENDAR\r\n"]
+    texts += [open(f, "rb").read().decode("utf-8", "replace") for f in sorted(_glob.glob(str(REPO / "src/icalendar/tests/calendars/*.ics")))[:: 4 if ctx.quick else 1]]
+    trees = []
+    for t in texts:
+        try:
+            trees += _Cal.from_ical(t, multiple=True) if "BEGIN:VCALENDAR" in t.upper() else [_Comp.from_ical(t)]
+        except ValueError:
+            continue
+    shared_dt = _vD(datetime(2024, 5, 1, 12, tzinfo=_ZI("UTC")))
+    al = Alarm()
+    al["ACKNOWLEDGED"] = shared_dt
+    al["TRIGGER"] = shared_dt                     # item assignment, the same value object twice
+    ev1, ev2 = Event(), Event()
+    ev1.add("uid", "1")
+    ev2.add("uid", "2")
+    ev1.add_component(al)
+    ev2.add_component(al)                         # one component object reachable twice
+    ev2.add_component(al)
+    cal = _Cal()
+    cal.add_component(ev1)
+    cal.add_component(ev2)
+    trees.append(cal)
+    if len(trees) < 10:
+        raise Machinery("purity step: too few trees")
+    for t in trees:
+        ctx.case(("purity", t.name, len(t.subcomponents), id(t) % 1000), True)
+        ctx.evaluations += 1
+        try:
+            ref_bytes = _copy.deepcopy(t).to_ical()      # a copy in which no object is shared
+        except Exception:   # noqa: BLE001  (C20-K1: custom zones under pytz)
+            ref_bytes = None
+        before = snapshot(t)
+        try:
+            b1 = t.to_ical()
+            mid = snapshot(t)
+            b2 = t.to_ical()
+            bu1 = t.to_ical(sorted=False)
+            bu2 = t.to_ical(sorted=False)
+        except ValueError:
+            continue
+        after = snapshot(t)
+        case = {"tree": t.name, "first_lines": b1.decode("utf-8", "replace")[:160]}
+        if before != mid or mid != after:
+            ctx.fail("P:C10:pure", case, repr([x for x, y in zip(before, after) if x != y])[:300], None)
+        if b1 != b2 or bu1 != bu2:
+            ctx.fail("P:C10:twice-identical", case, None, None)
+        if ref_bytes is not None and ref_bytes != b1:
+            ctx.fail("P:C10:function-of-the-tree", {**case, "what": "a tree with shared objects serialises differently from its deep copy"},
+                     None, None)
+        toks = [ln.split(b":", 1) for ln in b1.split(b"\r\n") if ln[:6].upper() == b"BEGIN:" or ln[:4].upper() == b"END:"]
+        depth = 0
+        for k, v in toks:
+            depth += 1 if k.upper() == b"BEGIN" else -1
+            if depth < 0:
+                break
+        if depth != 0:
+            ctx.fail("P:C10:balanced", case, [x for x in toks][:12], None)
 
     # ------------------------------------------------------------- RECORD: random trees
     from vf.props.c20 import random_tree
